@@ -204,5 +204,5 @@ def run(tier="quick"):
     rep.not_decided = ["fairness / which waiter gets the content (C06, C08)"]
     for m in models:
         rep.configs.append(m.config)
-        rules(rep, m)
+        common.run_rules(rep, m, rules)
     return rep.finish()
